@@ -255,6 +255,16 @@ let handle (line : string) : unit =
      pr ",\"pending\":"; plist pgate r.r_pending;
      pr ",\"fuel\":"; pbool r.r_fuel;
      pr "}"
+   | S (A "modelcheck" :: f) ->
+     let (_, p) = prog_of f in
+     let one name = match field name f with [v] -> v | _ -> failwith name in
+     let paction = function
+       | AStep -> pr "[\"s\"]" | AQuiesce -> pr "[\"q\"]" | ACancel -> pr "[\"c\",0]"
+       | AGate g -> pr "[\"g\","; pgate g; pr "]" in
+     (match modelcheck_case p (bool_ (one "wc")) (nat_ (one "pred")) (nat_ (one "limit")) with
+      | None -> pr "{\"states\":null}"
+      | Some (n, None) -> pr "{\"states\":"; pi (int_of_nat n); pr ",\"unsafe\":null}"
+      | Some (n, Some path) -> pr "{\"states\":"; pi (int_of_nat n); pr ",\"unsafe\":"; plist paction path; pr "}")
    | S (A "paths" :: f) ->
      let (_, p) = prog_of f in
      let wc = bool_ (match field "wc" f with [v] -> v | _ -> failwith "wc") in
